@@ -32,7 +32,7 @@ ASSUMPTIONS = [
     "CRLF, file readline at LF: an input-dependent difference that exists for every schedule, so not a C11 matter)",
 ]
 GATES = ["invariant_evaluated", "reads_short_justified", "reader_runs_compared", "single_cut_enumerated",
-         "single_fault_enumerated", "spanning_reads", "after_fault_reads"]
+         "single_fault_enumerated", "spanning_reads", "after_fault_reads", "chunked_invariant_evaluated"]
 
 
 class Monitor:
@@ -78,7 +78,13 @@ def make_wrapper_class(mon_holder):
                     return
                 mon.short_ok += 1
             got = bytes(self._vf_results) + bytes(self.buffer)
-            if got != bytes(sock.received):
+            expect = _HOLDER[1] if len(_HOLDER) > 1 else None
+            if expect is not None:
+                # transfer-decoded stream: what was delivered so far must be a prefix of the decoded body
+                if got != expect[: len(got)]:
+                    mon.problem = ("conservation", f"after {what}({k}): results+buffer is not a prefix of the decoded "
+                                   f"chunk bodies ({len(got)} bytes so far)")
+            elif got != bytes(sock.received):
                 a, b = got, bytes(sock.received)
                 i = next((j for j in range(min(len(a), len(b))) if a[j] != b[j]), min(len(a), len(b)))
                 mon.problem = ("conservation",
@@ -114,7 +120,7 @@ def make_wrapper_class(mon_holder):
     return MonitoredWrapper
 
 
-_HOLDER = [None]
+_HOLDER = [None, None]
 _CLS = None
 
 
@@ -172,6 +178,59 @@ def raw_case(ctx, data, sched, bufsize, reads, label):
     ctx.hit("after_fault_reads", mon.after_fault)
     nseg = sum(1 for _, o in sock.recv_log if isinstance(o, int) and o > 0)
     ctx.case(data + repr((sched, bufsize, reads)).encode(), nseg >= 2 and (mon.spanning > 0 or sock.faults > 0))
+
+
+def chunked_case(ctx, bodies, how, sched, bufsize, reads):
+    """Same invariants with chunked (+compressed) transfer decoding switched on."""
+    from vf import refchunk
+
+    enc, _ = refchunk.encode(bodies, False, True, how, 0)
+    want = b"".join(bodies)
+    params = {"kind": "chunked", "bodies": [b.hex() for b in bodies], "how": how, "sched": sched, "bufsize": bufsize,
+              "reads": reads}
+    mon = Monitor()
+    _HOLDER[0] = mon
+    _HOLDER[1] = want
+    sock = doubles.ScriptedSocket(enc, sched, budget=4 * len(enc) + 8 * len(sched) + 4 * len(reads) + 64)
+    out = bytearray()
+    flags = {None: 1, "gzip": 3, "zlib": 5, "deflate": 9}[how]
+    try:
+        try:
+            w = wrapper_class()(sock, encoding=flags, bufsize=bufsize)
+            for k in reads:
+                out += w.read(k)
+                if mon.problem:
+                    break
+            idle = 0
+            while not mon.problem and idle < len(sched) + 3:
+                r = w.read(1)
+                if r:
+                    out += r
+                    idle = 0
+                else:
+                    idle += 1
+                    if sock._vpos >= len(enc) and not sock._sched[sock._si:]:
+                        break
+        except doubles.BudgetExceeded as e:
+            ctx.violation("no-progress", f"chunked: {e}", params)
+            return
+        except Exception as e:
+            ctx.violation("wrapper-raised", f"chunked: {type(e).__name__}: {e}", params)
+            return
+    finally:
+        sock.close()
+        _HOLDER[1] = None
+    if mon.problem:
+        ctx.violation(mon.problem[0], f"chunked({how}): {mon.problem[1]}", params)
+        return
+    if "T" not in sched and "E" not in sched and bytes(out) != want:
+        ctx.violation("stream-not-reproduced", f"chunked({how}): reads returned {len(out)} of {len(want)} decoded bytes",
+                      params)
+        return
+    ctx.hit("invariant_evaluated", mon.evals)
+    ctx.hit("chunked_invariant_evaluated", mon.evals)
+    ctx.hit("reads_short_justified", mon.short_ok)
+    ctx.case(enc + repr((sched, bufsize, reads, how)).encode(), len(sched) >= 2)
 
 
 def reader_frames(stream, bufsize=4096, rounds=1, mode=0):
@@ -320,6 +379,17 @@ def run(ctx):
         sched = rand_sched(rng, len(data), bufsize, rng.choice((0, 0, 1, 3)))
         reads = [rng.choice((0, 1, 1, 2, 3, 5, 10, 64, 500, len(data), len(data) + 5, "L")) for _ in range(rng.randint(1, 30))]
         raw_case(ctx, data, sched, bufsize, reads, "raw")
+    # (A2) the same invariants with chunked transfer decoding on (segments smaller than a chunk etc.)
+    from vf.checks import c12
+
+    for it in range(ctx.n(600, 20000)):
+        bodies = c12.make_bodies(rng, None, rng.choice((5, 40, 200)))
+        how = (None, "gzip", "zlib", "deflate")[it % 4]
+        total = sum(len(b) for b in bodies) + 12 * len(bodies)
+        bufsize = rng.choice(BUFSIZES)
+        sched = rand_sched(rng, total, bufsize, rng.choice((0, 0, 0, 1, 2)))
+        reads = [rng.choice((1, 1, 2, 3, 5, 10, 64, 500)) for _ in range(rng.randint(1, 30))]
+        chunked_case(ctx, bodies, how, sched, bufsize, reads)
     # enumeration: every single cut, every single fault position (short streams)
     for it in range(ctx.n(128, 2000)):
         data = make_data(rng, small=True)[:600]
@@ -358,5 +428,7 @@ def replay(ctx, p):
         raw_case(ctx, bytes.fromhex(p["data"]), p["sched"], p["bufsize"], p["reads"], "replay")
     elif p["kind"] == "reader":
         reader_case(ctx, bytes.fromhex(p["data"]), p["sched"], p["bufsize"], p["crlf"], "replay")
+    elif p["kind"] == "chunked":
+        chunked_case(ctx, [bytes.fromhex(b) for b in p["bodies"]], p["how"], p["sched"], p["bufsize"], p["reads"])
     else:
         socketpair_case(ctx, bytes.fromhex(p["data"]), p["sizes"], p["bufsize"])
